@@ -208,6 +208,43 @@ func runC03Consumers(cfg Config, rep *Report, rng *rand.Rand) {
 			break
 		}
 
+		// (2b) the way `desync cat` consumes the reader: io.Copy (which uses WriteTo / ReadFrom when the types offer them)
+		// and io.CopyN after a Seek: success must mean the exact bytes, up to the end of the blob
+		if !returnsInTime(func() {
+			for k := 0; k < 4; k++ {
+				r := desync.NewIndexReadSeeker(idx, st)
+				off := int64(0)
+				if k > 0 {
+					off = int64(rng.Intn(len(blob)))
+					if k == 2 {
+						off = int64(vc.Start)
+					}
+					if _, err := r.Seek(off, io.SeekStart); err != nil {
+						continue
+					}
+				}
+				var out bytes.Buffer
+				var err error
+				want := blob[off:]
+				if k == 3 {
+					ln := 1 + rng.Intn(len(blob)-int(off))
+					want = blob[off : int(off)+ln]
+					_, err = io.CopyN(&out, r, int64(ln))
+				} else {
+					_, err = io.Copy(&out, r)
+				}
+				if err == nil && !bytes.Equal(out.Bytes(), want) {
+					monitor(fmt.Sprintf("copying from the seekable reader (offset %d) reported success with %d of %d bytes with a damaged chunk (%s)", off, out.Len(), len(want), kind), caseLine, "")
+				}
+				if err != nil && !bytes.HasPrefix(want, out.Bytes()) {
+					monitor(fmt.Sprintf("copying from the seekable reader wrote bytes that differ from the blob before it failed (%s)", kind), caseLine, "")
+				}
+			}
+		}) {
+			monitor("copying from the seekable reader did not return within 20 s on a store with a damaged chunk ("+kind+")", caseLine, "")
+			break
+		}
+
 		// (3) the index mount's read path
 		if !returnsInTime(func() {
 			h := desync.VerifNewIndexFileHandle(idx, st)
